@@ -48,6 +48,7 @@ class Z3Enc:
         self.ufs = {}
         self.has_uf = False
         self.sq_vars = {}
+        self.atans = []  # (argument, value) of every atan atom seen: pairwise monotonicity instances
 
     def uf(self, name, n):
         k = (name, n)
@@ -153,6 +154,14 @@ class Z3Enc:
             c = self.uf("cos", 1)(r)
             s = self.uf("sin", 1)(r)
             ax.append(z3.Implies(z3.And(a[0] >= -1, a[0] <= 1), z3.And(2 * r >= -pi, 2 * r <= pi, s == a[0], c >= 0, c * c + s * s == 1)))
+        elif name == "atan":
+            # atan: R -> (-pi/2, pi/2), odd, strictly increasing (instantiated for every pair of atan atoms of the query)
+            pi = self.enc(tm.PI)
+            ax.append(z3.And(2 * r > -pi, 2 * r < pi))
+            ax.append(z3.And(z3.Implies(a[0] > 0, r > 0), z3.Implies(a[0] < 0, r < 0), z3.Implies(a[0] == 0, r == 0)))
+            for (b, rb) in self.atans:
+                ax.append(z3.And(z3.Implies(a[0] < b, r < rb), z3.Implies(a[0] > b, r > rb), z3.Implies(a[0] == b, r == rb)))
+            self.atans.append((a[0], r))
         elif name == "exp":
             ax.append(r > 0)
         elif name == "cosh":
